@@ -46,6 +46,18 @@ pub struct PairScn {
     pub pre: bool,
 }
 
+/// The stack of the .dbf destination: `dbase::TableWriter` never calls `flush()` on its destination
+/// (not in finalize, not when dropped), so a write-back layer that commits on flush only would never
+/// see a row. That is the dbase crate's affair, not a pairing question: the .dbf goes straight to
+/// its device whenever the scenario asks for a write-back layer.
+fn dbf_stack(s: StackCfg) -> StackCfg {
+    if s == StackCfg::WriteBack {
+        StackCfg::Direct
+    } else {
+        s
+    }
+}
+
 fn table() -> dbase::TableWriterBuilder {
     dbase::TableWriterBuilder::new().add_integer_field(dbase::FieldName::try_from("idx").unwrap()).add_character_field(dbase::FieldName::try_from("name").unwrap(), 10)
 }
@@ -169,7 +181,7 @@ pub fn execute(scn: &PairScn, ctx: &mut Ctx) {
     let mut expected: Vec<usize> = Vec::new(); // shape index of each successfully written pair
     {
         let sw = ShapeWriter::with_shx(Stack::writer(&world, SHP, scn.stack), Stack::writer(&world, SHX, scn.stack));
-        let tw = table().build_with_dest(Stack::writer(&world, DBF, scn.stack));
+        let tw = table().build_with_dest(Stack::writer(&world, DBF, dbf_stack(scn.stack)));
         let mut writer = Writer::new(sw, tw);
         for (ci, call) in scn.calls.iter().enumerate() {
             let first_ev = world.borrow().log.len();
@@ -375,6 +387,27 @@ pub fn execute(scn: &PairScn, ctx: &mut Ctx) {
     // the complete reader without index (the .shx is optional): two pair iterations on one reader,
     // the first stopped after half of the pairs; the second yields the remaining pairs (or all of
     // them again, C15), each shape still next to its own row
+    // the complete reader without index: a seek is refused (no index), then the sequential fallback
+    if bad == "no-failing-row" && n >= 1 {
+        let w6 = World::with_data(Plan::default(), shp.clone(), shx.clone(), dbf.clone());
+        let r = guarded(|| -> Result<(bool, Vec<(Geom, Option<i64>)>), shapefile::Error> {
+            let mut rd = Reader::new(ShapeReader::new(Stack::reader(&w6, SHP, StackCfg::Direct))?, dbase::Reader::new(Stack::reader(&w6, DBF, StackCfg::Direct))?);
+            let refused = matches!(rd.seek(n / 2), Err(shapefile::Error::MissingIndexFile));
+            let pairs = rd.read()?.iter().map(|(s, rec)| (capture(s), match rec.get("idx") { Some(dbase::FieldValue::Integer(i)) => Some(*i as i64), _ => None })).collect();
+            Ok((refused, pairs))
+        });
+        match r {
+            Ok(Ok((refused, pairs))) => {
+                let ok = refused && pairs.len() == n && pairs.iter().enumerate().all(|(k, (g, idx))| diff_read(&geoms[expected[k]].normalised_for_read(), g, k, &never).is_none() && *idx == Some(k as i64));
+                if !ok {
+                    ctx.fail("C08", "reader-pairs", "no-index-after-refused-seek", format!("history {}: without index, seek({}) {} and read() then returned {:?} ({} pairs written)", hist, n / 2, if refused { "was refused" } else { "was not refused" }, pairs.iter().map(|(g, i)| format!("{}#{:?}", g.short(), i)).collect::<Vec<_>>(), n));
+                }
+            }
+            Ok(Err(e)) => ctx.fail("C08", "reader-pairs", "no-index-after-refused-seek", format!("history {}: the complete reader without index failed: {:?}", hist, classify(&e))),
+            Err(p) => ctx.fail("C08", "panic", p.site(), p.text()),
+        }
+        ctx.stats.absorb_world(&w6.borrow());
+    }
     for (with_index, via_nth) in [(false, false), (true, true), (false, true)] {
         if !(bad == "no-failing-row" && n >= 2) {
             break;
@@ -551,7 +584,7 @@ fn execute_pre(scn: &PairScn, shapes: &[shapefile::Shape], other: &shapefile::Sh
                 ctx.fail("HARNESS", "invalid-scenario", "pair", "the first shape cannot be written".to_string());
                 return None;
             }
-            let tw = table().build_with_dest(Stack::writer(&world, DBF, scn.stack));
+            let tw = table().build_with_dest(Stack::writer(&world, DBF, dbf_stack(scn.stack)));
             let mut writer = Writer::new(sw, tw);
             let mut rows = 0usize;
             for (ci, call) in scn.calls.iter().enumerate() {
